@@ -8,7 +8,7 @@ ROOT = os.path.dirname(os.path.dirname(os.path.abspath(__file__)))
 # id -> (category, technique, level text, level note, design ref)
 CHECKS = {
     "C01": ("fault_enumeration",
-            "proptest fault catalog over simulated histories (re-signed tampered data, bogus call results, token-mutated scripts) run in isolated worker processes with a counting allocator; libFuzzer targets in the thorough tier",
+            "proptest fault catalog over simulated histories (re-signed tampered data, bogus call results, token-mutated scripts, small value-growth scripts) run in isolated worker processes with a counting allocator and a per-case live-heap cap; libFuzzer targets (ASan) in the thorough tier",
             "Every operation of a 26-entry tampering catalog (and pairs), call-result faults, token-level script mutations and the other text/byte entry points are generated over honest simulated histories and executed in worker processes; a panic, a process death or a heap peak above 64 MiB + 256 B/input byte is a violation. Generated search cannot show absence; the catalog is enumerated, the histories are sampled.",
             "trusted: worker isolation/allocator accounting of the harness; stack 512 MiB (depth-proportional stack use is documented behaviour); inputs <= ~1 MiB; watchdog kills are inconclusive",
             "4 C01"),
